@@ -19,6 +19,7 @@ import RV.Base.Proto
                                     caller's dict number K> (empty at reset), inst=K = N-Quads parser object number K
     ctx K                 -> the keys of the caller's dict K: sorted label numbers < 1000, then `+n` for n other keys
     q s p o g             -> ok     next statement of the document (g may be `-`)
+    open / close          -> ok     `{` / `}` of an N3 formula: the statements in between are the formula's (their g is its node)
     end                   -> ok     parse the document into the target (Graph.parse)
     obs                   -> the target's quads:  s,p,o,g s,p,o,g …   (order irrelevant; harness canonicalises)
     nodes                 -> number of distinct blank nodes in the target
@@ -29,7 +30,7 @@ structure St where
   ds : DS
   pol : Policy
   into : T
-  cur : List DQuad                       -- statements of the open document, reversed
+  cur : List Ev                          -- statements (and `{` `}`) of the open document, reversed
   maps : List (Policy × List (Lbl × Nat)) -- finished documents, in order
   par : Option Parser                    -- none: round 1 form (policy only)
   opts : CallOpts
@@ -37,6 +38,11 @@ structure St where
   instK : Option Nat                     -- which N-Quads parser object
   ctxs : List (Nat × LMap)               -- the caller's dicts
   insts : List (Nat × LMap)              -- `_bnode_ids` of the N-Quads parser objects
+
+def stmtsOf : List Ev → List DQuad
+  | [] => []
+  | .stmt q :: es => q :: stmtsOf es
+  | _ :: es => stmtsOf es
 
 def St.empty : St := ⟨⟨[], 1000⟩, .remap, .iri 0, [], [], none, CallOpts.default, none, none, [], []⟩
 
@@ -80,7 +86,7 @@ def insertNat : Nat → List Nat → List Nat
 def showCtx (m : LMap) : String :=
   let small := m.foldl (fun acc e => match e.1 with
     | .named n => if n < 1000 then insertNat n acc else acc
-    | .anon _ => acc) []
+    | _ => acc) []
   let other := m.length - small.length
   let a := ",".intercalate (small.map toString)
   (if a = "" then "-" else a) ++ (if other = 0 then "" else s!" +{other}")
@@ -154,17 +160,24 @@ def step (s : St) : List String → St × String
   | ["q", a, b, c, d] =>
     match dterm? s a, dterm? s b, dterm? s c with
     | some a, some b, some c =>
-      if d = "-" then ({ s with cur := (a, b, c, none) :: s.cur }, "ok")
+      if d = "-" then ({ s with cur := .stmt (a, b, c, none) :: s.cur }, "ok")
       else match dterm? s d with
-        | some g => ({ s with cur := (a, b, c, some g) :: s.cur }, "ok")
+        | some g => ({ s with cur := .stmt (a, b, c, some g) :: s.cur }, "ok")
         | none => (s, "bad-op")
     | _, _, _ => (s, "bad-op")
+  | ["open"] => ({ s with cur := .opn :: s.cur }, "ok")
+  | ["close"] => ({ s with cur := .cls :: s.cur }, "ok")
   | ["end"] =>
-    let doc := s.cur.reverse
+    let evs := s.cur.reverse
+    let doc := stmtsOf evs
     match s.par with
     | none =>
       let m := finalMap s.ds s.pol s.into doc
       ({ s with ds := parseInto s.ds s.pol s.into doc, cur := [], maps := s.maps ++ [(s.pol, m)] }, "ok")
+    | some .turtle | some .n3 | some .trig =>
+      -- the N3-family parser as coded: a stack of label dicts (`Parsers.n3Run`)
+      let r := n3Run s.into ⟨s.ds.fresh, [], [], []⟩ evs
+      ({ s with ds := parseN3 s.ds s.into evs, cur := [], maps := s.maps ++ [(.remap, r.1.cur)] }, "ok")
     | some pr =>
       -- the dicts this call sees: the caller's `bnode_context` (if given) and the parser object's `_bnode_ids`
       let arg := s.ctxK.map (fun k => (klookup s.ctxs k).getD [])
